@@ -140,12 +140,13 @@ def term(c, o):
         toks_term(pg.get("tokens") or []), vlib.coq_bool(pg.get("eof", False)), OUTCOME.get(pg["outcome"], 9),
         vlib.coq_list([ent_term(e) for e in (pg.get("groups") or [["", []]])[0][1]])) for pg in (o.get("pages") or [])])
     return ("{| c_mode := %s; c_toks := %s; c_eof := %s; c_post := %s; c_post_eof := %s; c_ordered := %s; "
-            "c_has2 := %s; c_post2 := %s; c_post2_eof := %s; c_pages := @PAGES@; o_outcome := %d%%N; "
+            "c_has2 := %s; c_post2 := %s; c_post2_eof := %s; c_post2_txn := %s; c_pages := @PAGES@; o_outcome := %d%%N; "
             "o_groups := %s; o_ns := %s; o_status := %d%%N; o_status2 := %d%%N; o_token := %s |}" % (
                 MODE[c["mode"]], toks_term(o.get("tokens") or []), vlib.coq_bool(o.get("eof", False)),
                 toks_term(post.get("tokens") or []), vlib.coq_bool(post.get("eof", False)),
                 vlib.coq_bool(c.get("get", "changes") != "entities"),
                 vlib.coq_bool(bool(c.get("body2"))), toks_term(post2.get("tokens") or []), vlib.coq_bool(post2.get("eof", False)),
+                vlib.coq_bool(bool(c.get("body2txn"))),
                 OUTCOME.get(o["outcome"], 9), groups_term(o.get("groups") or []),
                 vlib.coq_list(["(%s, %s)" % (cstr(k), cstr(x)) for k, x in (o.get("ns") or [])]),
                 STATUS.get(o.get("status", 0), 9) if c["mode"] == "http" else 0,
@@ -483,6 +484,46 @@ def public_case(rng, i):
               restart=(i % 6 == 5))
 
 
+NESTED = ["[[0,0],[4,0],[0,3]]", "[[1,2],[3,[4]]]", "[[]]", '[["a"],["b"]]', "[[1],2,[3]]", '[[{"id":"a:n"}],[1]]', "[[[1]]]", "[1,2,3]"]
+
+
+def repost_case(rng, i):
+    """an entity whose property values are nested arrays is posted, then RE-posted: unchanged, with one digit changed (same
+    serialised length), or with another length; the second version must be stored exactly as posted"""
+    def ent(k, vals, extra=""):
+        return '{"id":"a:poly%d","props":{"a:shape":%s,"a:tag":"%s"%s}}' % (k, vals, "t%d" % k, extra)
+    ctx = '{"id":"@context","namespaces":{"a":"http://ex.org/a/"}}'
+    n = rng.range(1, 3)
+    vals = [rng.choice(NESTED) for _ in range(n)]
+    b1 = "[" + ctx + "," + ",".join(ent(k, vals[k]) for k in range(n)) + "]"
+    how = i % 3
+    vals2 = list(vals)
+    if how == 1:     # one digit changed, same length
+        k = rng.below(n)
+        v = vals2[k]
+        for d, r in (("0", "7"), ("1", "8"), ("2", "9"), ("a", "z")):
+            if d in v:
+                vals2[k] = v.replace(d, r, 1)
+                break
+    elif how == 2:   # another length
+        k = rng.below(n)
+        vals2[k] = rng.choice([x for x in NESTED if len(x) != len(vals2[k])])
+    b2 = "[" + ctx + "," + ",".join(ent(k, vals2[k]) for k in range(n)) + "]"
+    return mk("http", b1, "repost-nested", get=rng.choice(["entities", "changes"]), body2=b2)
+
+
+def txn_after_get_case(rng, i):
+    """GET a dataset, then write into it through POST /transactions with a namespace the store has never seen, GET again"""
+    n1 = "http://txn%d.org/new/" % rng.range(1, 999)
+    b1 = '[{"id":"@context","namespaces":{"a":"http://ex.org/a/"}},{"id":"a:first%d","props":{"a:n":%d}}]' % (i, i)
+    ns = {"a": "http://ex.org/a/", "t": n1}
+    ents = '{"id":"t:second%d","props":{"t:name":"Lisa","a:n":2},"refs":{"t:knows":"a:first%d"}}' % (i, i)
+    if i % 3 == 2:
+        ents += ',{"id":"a:first%d","props":{"t:extra":true}}' % i
+    b2 = '{"@context":' + json.dumps({"id": "@context", "namespaces": ns}) + ',"ds":[' + ents + "]}"
+    return mk("http", b1, "txn-after-get", get=rng.choice(["entities", "changes"]), getfirst=(i % 4 != 3), body2=b2, body2txn=True)
+
+
 def restart_case(rng, i):
     """POST a payload that introduces NEW namespaces, restart the hub, (POST a payload with ANOTHER new namespace,) GET, parse back"""
     n1 = "http://new%d.org/r/" % rng.range(1, 99)
@@ -670,6 +711,17 @@ def witness_cases():
            "w-public-ns", get="entities", public=["http://data.example.org/people/", "http://data.example.org/schema/"], getfirst=True,
            body2='[{"id":"@context","namespaces":{"x":"http://data.example.org/people/","y":"http://data.example.org/schema/"}},'
                  '{"id":"x:homer","props":{"x:name":"Homer","y:age":39}}]'),
+        # re-post of an entity with nested-array properties; a transaction with a new namespace between two GETs
+        mk("http", '[{"id":"@context","namespaces":{"a":"http://ex.org/a/"}},{"id":"a:tri","props":{"a:shape":[[0,0],[4,0],[0,3]]}}]',
+           "w-repost-nested-same", get="entities",
+           body2='[{"id":"@context","namespaces":{"a":"http://ex.org/a/"}},{"id":"a:tri","props":{"a:shape":[[0,0],[4,0],[0,3]]}}]'),
+        mk("http", '[{"id":"@context","namespaces":{"a":"http://ex.org/a/"}},{"id":"a:tri","props":{"a:shape":[[0,0],[4,0],[0,3]]}}]',
+           "w-repost-nested-digit", get="entities",
+           body2='[{"id":"@context","namespaces":{"a":"http://ex.org/a/"}},{"id":"a:tri","props":{"a:shape":[[0,0],[4,0],[0,5]]}}]'),
+        mk("http", '[{"id":"@context","namespaces":{"a":"http://ex.org/a/"}},{"id":"a:homer","props":{"a:name":"Homer"}}]',
+           "w-txn-after-get", get="entities", getfirst=True, body2txn=True,
+           body2='{"@context":{"id":"@context","namespaces":{"a":"http://ex.org/a/","t":"http://example.org/never-seen/"}},'
+                 '"ds":[{"id":"t:lisa","props":{"t:name":"Lisa"}}]}'),
         # fine
         S('{"id":"a:1","props":{"a:n":"x","k":[1,true,{"id":"z"}],"nul":null},"refs":{"a:r":"a:2","rr":["http://o/x#y","b"]},'
           '"deleted":true,"recorded":12}, {"id":"@continuation","token":"abc"}', "w-ok"),
@@ -726,6 +778,10 @@ def gen(rng, tier):
         out.append(restart_case(rng, i))
     for i in range(n_restart):
         out.append(public_case(rng, i))
+    for i in range(n_restart + n_restart // 2):
+        out.append(repost_case(rng, i))
+    for i in range(n_restart):
+        out.append(txn_after_get_case(rng, i))
     for i in range(n_source):
         out.append(source_case(rng, g, i))
     for i in range(n_txn):
